@@ -80,17 +80,26 @@ def c19_a(ctx: Ctx):
             else:
                 out.append(ctx.viol(R, f, e.node, f"init_project creates the configuration directory with {e.prim} without exist_ok=True: after an attempt that got as far as creating "
                                     "'.signac' but not the config file (write error, interrupt, concurrent init) every later init_project fails with FileExistsError", construct=IP + "|mkdir-tolerant"))
-    wr = [c for c in body_nodes(f) if isinstance(c, ast.Call) and isinstance(c.func, ast.Attribute) and c.func.attr == "write" and isinstance(c.func.value, ast.Name)]
-    for c in wr:
-        d = common.reaching_def(ctx, f, c.func.value.id, c)
+    # the write of the new configuration - in init_project itself or in a helper it calls
+    wsites = []
+    _eff, _cl = ctx.effects.transitive([f])
+    for g in [f] + [x for x in _cl.values() if x is not f and not x.module.is_dep and x.module.name.startswith("signac")]:
+        for c in body_nodes(g):
+            if isinstance(c, ast.Call) and isinstance(c.func, ast.Attribute) and c.func.attr == "write" and isinstance(c.func.value, ast.Name) \
+                    and (ctx.calls.type_of(c.func.value, g) == "ext:ConfigObj" or g is f or "onfig" in canon(c.func.value)):
+                wsites.append((g, c))
+    if not wsites:
+        out.append(ctx.inc(R, f, f.node, "init_project: no write of the new configuration found (directly or in a called helper)", construct=IP + "|config-read-modify-write"))
+    for g, c in wsites:
+        d = common.reaching_def(ctx, g, c.func.value.id, c)
         k = IP + "|config-read-modify-write"
-        if d is not None and isinstance(d, ast.Call) and "signac._config:_read_config_file" in common.targets_of(ctx, f, d):
-            out.append(ctx.ok(R, f, c, "the new configuration is what is on disk plus the schema version (read-modify-write)", construct=k))
+        if d is not None and isinstance(d, ast.Call) and "signac._config:_read_config_file" in common.targets_of(ctx, g, d):
+            out.append(ctx.ok(R, g, c, "the new configuration is what is on disk plus the schema version (read-modify-write)", construct=k))
         elif d is not None:
-            out.append(ctx.viol(R, f, c, f"the configuration written by init_project is built from scratch ({canon(d)[:50]}), not read from the file: whatever another process (or an earlier, "
+            out.append(ctx.viol(R, g, c, f"the configuration written by init_project is built from scratch ({canon(d)[:50]}), not read from the file: whatever another process (or an earlier, "
                                 "interrupted init) put into the configuration between the existence test and this write is reset", construct=k))
         else:
-            out.append(ctx.inc(R, f, c, "origin of the written configuration not determined", construct=k))
+            out.append(ctx.inc(R, g, c, "origin of the written configuration not determined", construct=k))
     for e in ctx.effects.direct(f):
         if e.kind in common.MUTATING_KINDS:
             inh = any(common.in_body_of(ctx, f, e.node, h, ("body",)) for h in tr.handlers)
@@ -152,10 +161,10 @@ def c19_b(ctx: Ctx):
     # the job directory is located by the *position* of the last match, never by searching the id text again
     ts = [c for c in body_nodes(f) if isinstance(c, ast.Call) and isinstance(c.func, ast.Attribute) and c.func.attr in ("partition", "split", "find", "index", "rpartition", "rsplit", "rfind", "rindex")
           and c.args and not isinstance(c.args[0], ast.Constant) and "os.sep" not in canon(c.args[0]) and (names_in(c.args[0]) - set(f.params))
-          and (names_in(c.func.value) & set(f.params))]
+          and (names_in(common.inline_at(ctx, f, c.func.value, c)) & set(f.params))]
     first = [c for c in ts if c.func.attr in ("partition", "split", "find", "index")]
     if first:
-        out.append(ctx.viol(R, f, first[0], f"the job directory is derived with {canon(first[0])[:40]}, i.e. from the first occurrence of the id text: when a nested project holds a job with the "
+        out.append(ctx.viol(R, f, first[0], f"the job directory is derived with {canon(first[0])[:40]}, i.e. from the first occurrence of the id (text or path component): when a nested project holds a job with the "
                             "same id as its enclosing job ('<ws>/X/workspace/X') the outer job and project are returned"))
     elif ts:
         out.append(ctx.inc(R, f, ts[0], f"job directory derived with {canon(ts[0])[:40]}"))
@@ -208,6 +217,15 @@ def c19_c(ctx: Ctx):
                                 "queries from inside a nested project resolve to the nested project", construct=k))
         else:
             out.append(ctx.inc(R, lf, w, f"start of the upward walk over `{v}` not determined", construct=k))
+    # the legacy-schema probe runs only after the search for a current configuration has reached the root without success: it must not sit in the loop that
+    # looks for the configuration file
+    for w in [n for n in body_nodes(lf) if isinstance(n, ast.While)]:
+        finds = [r for r in ast.walk(w) if isinstance(r, ast.Return) and r.value is not None and not (isinstance(r.value, ast.Constant) and r.value.value is None)]
+        probes = [c for c in ast.walk(w) if isinstance(c, ast.Call) and "signac._config:_raise_if_older_schema" in common.targets_of(ctx, lf, c)]
+        if finds and probes:
+            out.append(ctx.viol(R, lf, probes[0], "the legacy-schema probe is executed for every directory on the way up, inside the loop that looks for a configuration: a directory with an old-layout "
+                                "signac.rc between the query path and an enclosing initialised project makes get_project raise IncompatibleSchemaVersion instead of returning that project",
+                                construct=LOC + "|probe-after-search"))
     for q in (LOC, GP, GJ, "signac._config:_get_project_config_fn"):
         f = ctx.fn(q)
         mt = [c for c in body_nodes(f) if isinstance(c, ast.Call) and common.ext_name(ctx, f, c) in ("os.path.ismount",)]
